@@ -3,7 +3,8 @@
 //! Sections (each a sorted list of lines):
 //!   desc     hover-like documentation (property index) of type / global / member owners
 //!   type     type declarations: kind, per-location flags, locations, supers, alias origin
-//!   member   members of every type declaration (index level) and resolved member infos (semantic level)
+//!   member   members of every type declaration (index level)
+//!   minfo    resolved member infos of every type declaration (semantic level, includes inherited members)
 //!   global   global declarations: name, location, bound type
 //!   module   module map (file -> module name, workspace, visibility, meta, export type) and
 //!            `find_module` answers for a fixed probe list
@@ -29,7 +30,9 @@ use std::collections::{BTreeMap, BTreeSet};
 use std::path::{Path, PathBuf};
 use tokio_util::sync::CancellationToken;
 
-pub const SECTIONS: &[&str] = &["file", "desc", "type", "member", "global", "module", "operator", "ref", "sem", "diag"];
+pub const SECTIONS: &[&str] = &["file", "desc", "type", "member", "global", "module", "operator", "minfo", "ref", "sem", "diag"];
+/// sections holding index-level facts (root causes); the remaining ones are computed from them
+pub const ROOT_SECTIONS: &[&str] = &["file", "desc", "type", "member", "global", "module", "operator"];
 
 #[derive(Clone, Debug, Default, PartialEq, Eq)]
 pub struct Dump {
@@ -121,7 +124,7 @@ impl Dump {
 /// the part of a dump line that identifies *what* the line talks about (owner / position), by section
 fn subject(section: &str, line: &str) -> String {
     match section {
-        // "<file>@a..b name : type -> decl [def=..] [doc=..]"
+        // "<file>@a..b name : type ==> decl [def=..]"
         "sem" => line.split(" : ").next().unwrap_or(line).to_string(),
         // "<owner> desc=..."
         "desc" => line.split(" desc=").next().unwrap_or(line).to_string(),
@@ -129,7 +132,7 @@ fn subject(section: &str, line: &str) -> String {
         "type" => line.split(' ').next().unwrap_or(line).to_string(),
         // "<name> at <loc> : type"
         "global" => line.split(" : ").next().unwrap_or(line).to_string(),
-        "member" => line.split(" : ").next().unwrap_or(line).to_string(),
+        "member" | "minfo" => line.split(" : ").next().unwrap_or(line).to_string(),
         "module" => line.split(" = ").next().unwrap_or(line).to_string(),
         // "<file> l:c-l:c code severity message"
         "diag" => line.split(' ').take(3).collect::<Vec<_>>().join(" "),
@@ -143,9 +146,32 @@ fn owner_kind(line: &str) -> &str {
     line.split(':').next().unwrap_or("")
 }
 
+/// true when the right side only *adds* lines to this section, apart from lines of the same subject whose
+/// rendered type changed (global / member / minfo lines render the members of a class inside the type)
+pub fn additions_or_type_only(d: &Diff) -> bool {
+    let sec = d.section.as_str();
+    let mut added: Vec<&String> = d.only_right.iter().collect();
+    for l in &d.only_left {
+        let s = subject(sec, l);
+        match added.iter().position(|r| subject(sec, r) == s) {
+            Some(i) if matches!(sec, "global" | "member" | "minfo" | "operator") => {
+                added.remove(i);
+            }
+            _ => return false,
+        }
+    }
+    true
+}
+
 /// Mechanical root-cause key of the first differing section (sections are ordered root causes first).
 /// `left` = reference state, `right` = state under judgement.
 pub fn classify(diffs: &[Diff]) -> String {
+    classify_with(diffs, None)
+}
+
+/// `reference`: the reference dump, used to recognise that two declarations are the global declarations
+/// of one name (the resolution then only switched between declarations of the same global)
+pub fn classify_with(diffs: &[Diff], reference: Option<&Dump>) -> String {
     let Some(d) = diffs.first() else { return "no-diff".into() };
     let sec = d.section.as_str();
     // pair lines about the same subject
@@ -160,29 +186,84 @@ pub fn classify(diffs: &[Diff]) -> String {
             removed.push(l);
         }
     }
+    // only additions in a section that lists resolved facts: the re-analysis resolved more than before
+    if changed.is_empty() && removed.is_empty() && matches!(sec, "member" | "minfo" | "ref" | "operator" | "global") {
+        return "resubmit-resolves-more".into();
+    }
     match sec {
         "desc" => {
+            // lost, re-added or replaced: the documentation of an owner changed
+            let l = changed.first().map(|x| x.0).or(removed.first().copied()).or(added.first().copied());
+            format!("desc-changed:{}", l.map(|l| owner_kind(l)).unwrap_or(""))
+        }
+        "type" => {
             if let Some((l, r)) = changed.first() {
-                let lost = l.contains("desc=Some(") && r.contains("desc=None");
-                return format!("desc-{}:{}", if lost { "lost" } else { "changed" }, owner_kind(l));
+                let field = |s: &str, name: &str| -> String {
+                    match s.find(name) {
+                        Some(i) => {
+                            let rest = &s[i + name.len()..];
+                            // fields are written in a fixed order; the next one starts with " <word>="
+                            let mut end = rest.len();
+                            for k in [" origin=", " enum_key=", " supers=", " generics="] {
+                                if let Some(j) = rest.find(k) {
+                                    end = end.min(j);
+                                }
+                            }
+                            rest[..end].to_string()
+                        }
+                        None => String::new(),
+                    }
+                };
+                for (name, key) in [("locs=", "locations"), (" origin=", "alias-origin"), (" enum_key=", "enum"), (" supers=", "supers"), (" generics=", "generics")] {
+                    if field(l, name) != field(r, name) {
+                        return format!("type:{key}-changed");
+                    }
+                }
+                return "type:kind-changed".into();
             }
-            if let Some(l) = removed.first() {
-                return format!("desc-{}:{}", if l.contains("desc=Some(") { "lost" } else { "entry-removed" }, owner_kind(l));
+            if !removed.is_empty() {
+                return "type:removed".into();
             }
-            format!("desc-added:{}", added.first().map(|l| owner_kind(l)).unwrap_or(""))
+            "type:added".into()
         }
         "sem" => {
             if let Some((l, r)) = changed.first() {
-                let part = |s: &str, i: usize| s.splitn(2, " : ").nth(1).unwrap_or("").splitn(2, " -> ").nth(i).unwrap_or("").to_string();
+                let part = |s: &str, i: usize| s.splitn(2, " : ").nth(1).unwrap_or("").rsplitn(2, " ==> ").nth(1 - i).unwrap_or("").to_string();
                 let (lt, rt) = (part(l, 0), part(r, 0));
                 let (ld, rd) = (part(l, 1), part(r, 1));
                 let strip_doc = |s: &str| s.split(" doc=").next().unwrap_or("").to_string();
                 if strip_doc(&ld) != strip_doc(&rd) {
                     let k = |s: &str| s.split(':').next().unwrap_or("").to_string();
+                    // "<file>@a..b NAME : ..." -> NAME; are both targets global declarations of NAME?
+                    let name = l.split(" : ").next().unwrap_or("").rsplit(' ').next().unwrap_or("").to_string();
+                    if let Some(globals) = reference.and_then(|r| r.sections.get("global")) {
+                        let is_global_decl = |d: &str| -> bool {
+                            // d = "decl:<file>@<pos>[ def=...]"; global lines are "<name> at <file>@<pos>..<end> : type"
+                            let d = d.split(' ').next().unwrap_or("");
+                            match d.strip_prefix("decl:") {
+                                Some(loc) => globals.iter().any(|g| g.starts_with(&format!("{name} at {loc}.."))),
+                                None => false,
+                            }
+                        };
+                        if is_global_decl(&ld) && is_global_decl(&rd) {
+                            return "sem:global-decl-switched".into();
+                        }
+                    }
+                    if k(&ld) == "member" && k(&rd) == "member" {
+                        return "sem:member-decl-switched".into();
+                    }
                     return format!("sem:decl-changed:{}>{}", k(&ld), k(&rd));
                 }
                 if lt != rt {
-                    return "sem:type-changed".into();
+                    // a name with several global declarations: its type is taken from the declaration list,
+                    // whose order is the analysis order
+                    let name = l.split(" : ").next().unwrap_or("").rsplit(' ').next().unwrap_or("").to_string();
+                    if let Some(globals) = reference.and_then(|r| r.sections.get("global")) {
+                        if globals.iter().filter(|g| g.starts_with(&format!("{name} at "))).count() >= 2 {
+                            return "sem:multi-decl-global-type-changed".into();
+                        }
+                    }
+                    return "inferred-type-drift".into();
                 }
                 return "sem:doc-changed".into();
             }
@@ -193,7 +274,15 @@ pub fn classify(diffs: &[Diff]) -> String {
         }
         "diag" => {
             let code = |l: &str| l.split(' ').nth(2).unwrap_or("?").to_string();
-            if let Some((l, _)) = changed.first() {
+            if let Some((l, r)) = changed.first() {
+                // same file, range and code; if the first sentence of the message agrees, only the
+                // explanation of a type mismatch (which member failed first) differs
+                let first_sentence = |m: &str| m.find(". ").map(|i| m[..i].to_string());
+                if let (Some(a), Some(b)) = (first_sentence(l), first_sentence(r)) {
+                    if a == b {
+                        return "diag:mismatch-reason-changed".into();
+                    }
+                }
                 return format!("diag:{}:changed", code(l));
             }
             if let Some(l) = removed.first() {
@@ -218,13 +307,45 @@ pub fn classify(diffs: &[Diff]) -> String {
         }
         "module" => {
             let fm = |l: &str| if l.starts_with("find_module(") { "find-module" } else { "module-info" };
-            if let Some((l, _)) = changed.first() {
+            if let Some((l, r)) = changed.first() {
+                if fm(l) == "module-info" {
+                    const KEYS: &[&str] = &[" name=", " ws=", " vis=", " meta=", " export=", " semantic=", " version="];
+                    let get = |s: &str, k: usize| -> String {
+                        let Some(i) = s.find(KEYS[k]) else { return String::new() };
+                        let rest = &s[i + KEYS[k].len()..];
+                        let end = KEYS.get(k + 1).and_then(|n| rest.find(n)).unwrap_or(rest.len());
+                        rest[..end].to_string()
+                    };
+                    for (k, key) in KEYS.iter().enumerate() {
+                        if get(l, k) != get(r, k) {
+                            let key = key.trim();
+                            if key == "export=" {
+                                return "inferred-type-drift".into();
+                            }
+                            if key == "vis=" || key == "semantic=" {
+                                // both are written together by the module-return analysis
+                                return "module-info:semantic-changed".into();
+                            }
+                            return format!("module-info:{}changed", key.replace('=', "-"));
+                        }
+                    }
+                }
                 return format!("{}:changed", fm(l));
             }
             if let Some(l) = removed.first() {
                 return format!("{}:removed", fm(l));
             }
             format!("{}:added", added.first().map(|l| fm(l)).unwrap_or(""))
+        }
+        "global" | "member" | "minfo" | "operator" if !changed.is_empty() => {
+            // same owner / location / feature (the subject); only the inferred type after " : " differs
+            let (l, r) = changed[0];
+            let tail = |s: &str| s.splitn(2, " : ").nth(1).unwrap_or("").to_string();
+            let owner = |s: &str| tail(s).split(" owner=").nth(1).unwrap_or("").to_string();
+            if sec == "minfo" && owner(l) != owner(r) {
+                return "minfo:owner-changed".into();
+            }
+            "inferred-type-drift".into()
         }
         _ => {
             if !changed.is_empty() {
@@ -452,6 +573,9 @@ pub struct DumpOpts<'a> {
     pub module_probes: &'a [&'a str],
     /// extra global / field names to probe in the reference index
     pub name_probes: &'a [&'a str],
+    /// keep only the first sentence of diagnostic messages: the explanation after it names the first
+    /// mismatching member in hash-map order (C11-F2), which is not reproducible even for one state
+    pub strip_mismatch_reason: bool,
 }
 
 struct Ctx<'a> {
@@ -528,7 +652,9 @@ impl Ctx<'_> {
     fn property(&self, owner: &LuaSemanticDeclId) -> Option<String> {
         let p = self.db.get_property_index().get_property(owner)?;
         let mut s = String::new();
-        s.push_str(&format!("desc={:?}", p.description().map(|d| d.as_str())));
+        // an entry with an empty description and no other attribute is indistinguishable from no entry
+        let desc = p.description().map(|d| d.as_str()).filter(|d| !d.is_empty());
+        s.push_str(&format!("desc={:?}", desc));
         if p.visibility != emmylua_parser::VisibilityKind::Public {
             s.push_str(&format!(" vis={:?}", p.visibility));
         }
@@ -543,6 +669,9 @@ impl Ctx<'_> {
         }
         if let Some(t) = p.tag_content() {
             s.push_str(&format!(" tags={:?}", t.get_all_tags()));
+        }
+        if s == "desc=None" {
+            return None;
         }
         Some(s)
     }
@@ -640,9 +769,9 @@ pub fn dump(analysis: &EmmyLuaAnalysis, opts: &DumpOpts) -> Dump {
                 if let Some(infos) = model.get_member_infos(&LuaType::Ref(id.clone())) {
                     for i in infos {
                         d.push(
-                            "member",
+                            "minfo",
                             format!(
-                                "info {}.{} : {} owner={} {:?}",
+                                "{}.{} : {} owner={} {:?}",
                                 cx.type_id(id),
                                 cx.key(&i.key),
                                 cx.ty(&i.typ),
@@ -751,7 +880,15 @@ pub fn dump(analysis: &EmmyLuaAnalysis, opts: &DumpOpts) -> Dump {
                         g.range.end.line,
                         g.range.end.character,
                         g.severity,
-                        norm_message(&g.message)
+                        if opts.strip_mismatch_reason {
+                            let m = norm_message(&g.message);
+                            match m.find(". ") {
+                                Some(i) => m[..i + 1].to_string(),
+                                None => m,
+                            }
+                        } else {
+                            norm_message(&g.message)
+                        }
                     );
                     if let Some(tags) = &g.tags {
                         line.push_str(&format!(" tags={:?}", tags));
@@ -800,7 +937,7 @@ pub fn dump(analysis: &EmmyLuaAnalysis, opts: &DumpOpts) -> Dump {
                     Some(i) => (cx.ty(&i.typ), i.semantic_decl.as_ref().map(|x| cx.decl_id(x)).unwrap_or_else(|| "-".into())),
                     None => ("<none>".to_string(), "-".to_string()),
                 };
-                let mut line = format!("{fname}@{}..{} {} : {} -> {}", u32::from(r.start()), u32::from(r.end()), tok.text(), ty, decl);
+                let mut line = format!("{fname}@{}..{} {} : {} ==> {}", u32::from(r.start()), u32::from(r.end()), tok.text(), ty, decl);
                 let def_s = def.as_ref().map(|x| cx.decl_id(x)).unwrap_or_else(|| "-".into());
                 if def_s != decl {
                     line.push_str(&format!(" def={def_s}"));
